@@ -1,2 +1,92 @@
 import DuneVerif.Common.Proto
-def main : IO Unit := DV.runDriver fun _ => "bad-op"
+import DuneVerif.Model.C13
+/-! line-protocol driver for C13 (format: see harness/mpi_c13.cc)
+    `np=<P> num=<d|c> ord=<a|f> del=<m|r> : <g>=<rank><o|v|c><k|d|a|n>,...;...`  -/
+open DV DV.C13
+
+structure Tok where
+  rank : Nat
+  g : Int
+  attr : Nat
+  st : Char
+
+def attrOfChar? (c : Char) : Option Nat :=
+  if c = 'o' then some 0 else if c = 'v' then some 1 else if c = 'c' then some 2 else none
+
+def attrStr (a : Nat) : String :=
+  if a = 0 then "o" else if a = 1 then "v" else if a = 2 then "c" else "?" ++ toString a
+
+def parseHolder? (np : Nat) (g : Int) (h : String) : Option Tok :=
+  let cs := h.toList
+  if cs.length < 3 then none else
+  let rs := cs.take (cs.length - 2)
+  if !rs.all Char.isDigit then none else
+  match (String.ofList rs).toNat?, attrOfChar? (cs.getD (cs.length - 2) ' ') with
+  | some r, some a =>
+    let st := cs.getD (cs.length - 1) ' '
+    if r < np ∧ (st = 'k' ∨ st = 'd' ∨ st = 'a' ∨ st = 'n') then some ⟨r, g, a, st⟩ else none
+  | _, _ => none
+
+def parseSeg? (np : Nat) (seg : String) : Option (List Tok) :=
+  match seg.splitOn "=" with
+  | [gs, hs] =>
+    match gs.toInt? with
+    | some g =>
+      if gs.toList.head? = some '+' then none else
+      match (hs.splitOn ",").mapM (parseHolder? np g) with
+      | some ts => if (ts.map (·.rank)).Nodup then some ts else none
+      | none => none
+    | none => none
+  | _ => none
+
+def insSorted (x : Int × Nat) : List (Int × Nat) → List (Int × Nat)
+  | [] => [x]
+  | y :: ys => if y.1 < x.1 then y :: insSorted x ys else x :: y :: ys
+
+def locStr (l : Nat) : String := if l = 2 ^ 64 - 1 then "M" else toString l
+
+def showRank (st : RankState) : String :=
+  let idx := "I[" ++ ",".intercalate (st.idx.map fun e => toString e.g ++ attrStr e.attr ++ ":" ++ locStr e.loc) ++ "]"
+  let nbs := st.remote.map fun x =>
+    " N" ++ toString x.1 ++ "[" ++ ",".intercalate (x.2.map fun en =>
+      match resolve st.idx en with
+      | some k => toString en.g ++ attrStr en.own ++ attrStr en.rem ++ "@" ++ toString k
+      | none => "?" ++ attrStr en.rem) ++ "]"
+  idx ++ String.join nbs ++ " S" ++ (if isSynced st then "1" else "0")
+
+def run (np : Nat) (custom : Bool) (toks : List Tok) : String :=
+  let base : Decomp := (List.range np).map fun p =>
+    (toks.filter fun t => t.rank = p ∧ (t.st = 'k' ∨ t.st = 'd')).foldl (fun acc t => insSorted (t.g, t.attr) acc) []
+  let del : Nat → Int → Bool := fun p g => toks.any fun t => t.rank = p ∧ t.g = g ∧ t.st = 'd'
+  let w1 := deleteCopies del (consistent base)
+  let w2 := w1.mapIdx fun p st =>
+    let adds := (toks.filter fun t => t.rank = p ∧ t.st = 'a').foldl (fun acc t => insSorted (t.g, t.attr) acc) []
+    adds.foldl (fun s ga =>
+      let known := (toks.filter fun t => t.g = ga.1 ∧ t.rank ≠ p).map fun t => (t.rank, t.attr)
+      addCopy s ga.1 ga.2 (500 + ga.1).toNat known) st
+  let num : Int → Nat := if custom then fun g => (1000 + g).toNat else fun _ => 2 ^ 64 - 1
+  let post := sync num w2
+  " ".intercalate (post.mapIdx fun p st => "r" ++ toString p ++ "{" ++ showRank st ++ "}")
+
+def handle (line : String) : String :=
+  match line.splitOn " : " with
+  | [head, body] =>
+    match tokens head with
+    | [n, num, ord, del] =>
+      if !(n.startsWith "np=") then "bad-op" else
+      match (n.drop 3).toString.toNat? with
+      | none => "bad-op"
+      | some np =>
+        if np < 1 ∨ np > 64 then "bad-op" else
+        if !(num = "num=d" ∨ num = "num=c") ∨ !(ord = "ord=a" ∨ ord = "ord=f") ∨ !(del = "del=m" ∨ del = "del=r") then "bad-op" else
+        if ord = "ord=f" ∧ num = "num=d" then "bad-op" else
+        let segs := (body.splitOn ";").map (fun s => String.ofList (s.toList.filter (· ≠ ' '))) |>.filter (· ≠ "")
+        match segs.mapM (parseSeg? np) with
+        | none => "bad-op"
+        | some tss =>
+          if !((tss.filterMap fun ts => ts.head?.map (·.g)).Nodup) then "bad-op" else
+          run np (num = "num=c") tss.flatten
+    | _ => "bad-op"
+  | _ => "bad-op"
+
+def main : IO Unit := runDriver handle
